@@ -559,8 +559,8 @@ type vConn struct {
 	rawTags []string
 }
 
-func (c *vConn) NetworkName() string                   { return "verif" }
-func (c *vConn) ContractAddress() ethCommon.Address     { return ethCommon.Address{} }
+func (c *vConn) NetworkName() string                                            { return "verif" }
+func (c *vConn) ContractAddress() ethCommon.Address                             { return ethCommon.Address{} }
 func (c *vConn) GetCurrentGuardianSetIndex(ctx context.Context) (uint32, error) { return 0, nil }
 func (c *vConn) GetGuardianSet(ctx context.Context, index uint32) (ethAbi.StructsGuardianSet, error) {
 	return ethAbi.StructsGuardianSet{}, nil
@@ -807,9 +807,9 @@ func TestVerifEvm(t *testing.T) {
 	g := &vgen{r: rand.New(rand.NewSource(seed)), w: bufio.NewWriterSize(f, 1<<20)}
 	defer g.w.Flush()
 
-	nWs, nDirect := 400, 2500
+	nWs, nDirect := 300, 2500
 	if tier == "thorough" {
-		nWs, nDirect = 4000, 30000
+		nWs, nDirect = 3000, 30000
 	}
 	if v := os.Getenv("VERIF_EVM_WS"); v != "" {
 		nWs, _ = strconv.Atoi(v)
@@ -823,5 +823,5 @@ func TestVerifEvm(t *testing.T) {
 	for i := 0; i < nWs && g.stuck < 3; i++ {
 		g.wsCase(t, i)
 	}
-	t.Logf("evm harness: %d lines, stuck cases %d, goroutines at end %d, poller flushes %d (%d stack dumps)", g.lines, g.stuck, runtime.NumGoroutine(), vFlushes, vDumps)
+	t.Logf("evm harness: %d lines, stuck cases %d, goroutines at end %d, poller flushes %d (%d stack dumps, poller goroutine not found %d times)", g.lines, g.stuck, runtime.NumGoroutine(), vFlushes, vDumps, vNotFound)
 }
